@@ -24,7 +24,8 @@ CHECKS = {
               "ties in listing order) and max_interval=None = 0. The behaviour before the repairs 082daed, 26612d6, fdf1ba2 is "
               "kept as six *_asis_refuted witnesses, one per defect. Tie: the real IntervalTree and FileSet.match are run on "
               "generated interval sets and harness-built filesets (open, explicit and near-limit periods, files of equal start and "
-              "equal coverage, path order different from time order, every call made twice with the first answers cleared) and "
+              "equal coverage, path order different from time order, every call made twice with the first answers cleared; interval arrays of "
+              "narrow dtypes - int8, uint8, float16 - with more rows than the dtype can count) and "
               "compared with match_full and its specification evaluated in Coq; because model = spec is a theorem, any "
               "disagreement on a well-formed input is a failing input of the property."),
         note=COMMON_NOTE + " numpy array / datetime arithmetic (int(total_seconds()) exact below 2^53 us); FileSet.find's period selection on flat templates is exercised here and proved under property C01; sub-second files and fractional max_interval are modelled but not generated.",
@@ -42,7 +43,8 @@ CHECKS = {
               "T <= 0; RH<->VMR inverse for any saturation function; lapse rate in (0, g/cp] with an explicit bound on its distance "
               "to g/cp proportional to the saturation mixing ratio. Float behaviour is tied pointwise by interval enclosures proved "
               "in Coq around the values the implementation returns; a numeric sweep of the stated laws on the implementation "
-              "(plus exact Fraction evaluation of the converters) searches for a failing input whenever an obligation breaks."),
+              "(plus exact Fraction evaluation of the converters, purity of the arguments and of results handed out earlier) "
+              "searches for a failing input whenever an obligation breaks."),
         note=COMMON_NOTE + " The translator is trusted to render the whitelisted Python subset faithfully (mitigated by the enclosures); "
              "real-number axioms of the Coq standard library, classic, functional extensionality (Coquelicot) and the primitive "
              "int/float specifications used by the interval tactic appear in Print Assumptions.",
